@@ -1,0 +1,15 @@
+//go:build verif
+// +build verif
+
+package pdnode_coord
+
+import (
+	"github.com/youzan/ZanRedisDB/cluster"
+)
+
+// VerifRebalancedPartitions exposes the layout function used for new namespaces,
+// migrations and balancing.
+func VerifRebalancedPartitions(ns string, partitionNum int, replica int,
+	old [][]string, nodes map[string]cluster.NodeInfo, balanceVer string) ([][]string, *cluster.CoordErr) {
+	return getRebalancedNamespacePartitions(ns, partitionNum, replica, old, nodes, balanceVer)
+}
